@@ -773,6 +773,8 @@ def run(chk: Check):
     rule_e6(chk, ix)
     rule_e4_guard(chk, ix)
     rule_e8(chk, ix)
+    from .c12 import rule_z4
+    rule_z4(chk, ix)   # the file is opened only when there is one (an empty source must still end in SyntaxError)
     tr.feed(chk, {k: "E7-action-type-hazard" for k in (
         "S0-bad-attribute", "S0-none-attribute", "S0-none-iterated", "S0-none-subscript", "S0-bad-operand", "S0-bad-index",
         "S0-unpack-arity", "S0-call-arity", "S0-none-len", "S0-chain-nonlist", "S0-index-empty", "E4-mixed-literal-add", "S0-assert-none")})
